@@ -18,7 +18,7 @@ from vlib import core
 from harness import common
 
 FIXES = os.path.join(core.VERIF, 'fixes')
-MY_KNOWN = ('K3', 'K24a')
+MY_KNOWN = ('K3', 'K24a', 'K24b')
 
 # Known findings are merged into known_findings.json by the coordinator; until then read our own records so
 # that the check behaves as it will after the merge (nothing is suppressed that is not recorded in fixes/).
@@ -80,8 +80,8 @@ class C24(core.Check):
                'classes and error numbers regenerated (gen_textfile)',
                'number formatting/parsing (to_repr / from_repr) is C07: numbers are items given by their text; '
                'the oracle compares the value read with the Python value of that text',
-               'WIDTH#, PRINT# with several expressions / zones / USING, INPUT$ and LOC on a NewlineWrapper-'
-               'filtered input file are not modelled (LOC there is only range-checked by the oracle)']
+               'PRINT USING / SPC / TAB, text-encoding options and INPUT$ of more than one byte through the '
+               'NewlineWrapper (chunk-dependent, known finding K24b: judged by the oracle only) are not modelled']
     PARTIAL = None
     RULE = ('scripts: well-formed round trips (WRITE#/INPUT#, PRINT#/LINE INPUT#, 1-3 OUTPUT/APPEND sessions, '
             'EOF/LOF/LOC probes interleaved with the reads, both soft_linefeed settings, string lengths dense at '
@@ -116,6 +116,21 @@ class C24(core.Check):
             self.mk_rtl(False, [[[97, 98], [], [99]]], rp=['EOF', 'LOF', 'EOF']),
             self.mk_rt(False, [[['s', [97]]], [['s', [98]], ['n', '%', '7', '7']]], appends=1),
             self.mk_rtl(True, [[[97, 10, 98], [], [0, 9, 34, 44]], [[99]]], appends=1),
+            self.mk_rtl(True, [[[97, 10, 13, 98], [10, 13, 10, 13, 120], []]]),
+            # PRINT# with several expressions, zones, WIDTH#
+            {'k': 'rtp', 'soft': False, 'ops': [['O'], ['PE', [['v', [97]], [','], ['v', [98]], [';'], ['n', '%', '1', ' 1 ']]],
+                                               ['PE', [['v', [99] * 14], [','], [','], ['v', [100]]]], ['LOC'], ['C'],
+                                               ['DISK'], ['I'], ['EOF'], ['LI'], ['EOF'], ['LI'], ['EOF'], ['C'], ['DISK']]},
+            {'k': 'rtp', 'soft': True, 'ops': [['O'], ['WD', 20], ['PE', [['v', [97] * 8], [';'], ['v', [98] * 16], [';'],
+                                                                         ['v', [97] * 8], [','], ['v', [97] * 8], [',']]],
+                                              ['PE', [['v', [99] * 30]]], ['PE', []], ['C'], ['DISK'], ['I'], ['LI'],
+                                              ['LI'], ['LI'], ['LI'], ['LI'], ['LI'], ['EOF'], ['C'], ['DISK']]},
+            # INPUT$: exact bytes, Input past end at 1A; K24b witness (default mode, 3 bytes over a CR LF)
+            {'k': 'ins', 'soft': True, 'ops': [['RAW', [97, 13, 10, 34, 44, 32, 10, 98, 26, 99]], ['I'], ['IS', 3], ['LOC'],
+                                              ['IS', 1], ['IS', 4], ['EOF'], ['IS', 1], ['IS', 1], ['C'], ['DISK']]},
+            {'k': 'ins', 'soft': False, 'ops': [['RAW', [97, 13, 10, 98, 99]], ['I'], ['IS', 3], ['C'], ['DISK']]},
+            {'k': 'ins', 'soft': False, 'ops': [['RAW', [13, 10] * 70 + [97]], ['I']] + [['IS', 1], ['LOC']] * 70 +
+                                             [['EOF'], ['LOC'], ['C'], ['DISK']]},
             # outside the class: quotes, NUL, 1A, LF (default mode), leading CR LF (soft mode)
             self.mk_any(False, [['W', [['s', [97, 34, 98]], ['s', [0, 97, 0]], ['s', [97, 26, 98]], ['s', [97, 10, 98]]]]],
                         ['IN', '$'], 6),
@@ -191,9 +206,12 @@ class C24(core.Check):
 
     @staticmethod
     def line_in_class(soft, b):
-        if len(b) > 255 or any(x in (13, 26) or not 0 <= x < 256 for x in b):
+        if len(b) > 255 or any(x == 26 or not 0 <= x < 256 for x in b):
             return False
-        return b[-1:] != [10] if soft else 10 not in b
+        if not soft:
+            return 10 not in b and 13 not in b
+        # soft_linefeed: a CR only directly after an LF; the last byte is not LF
+        return all(b[i] != 13 or (i > 0 and b[i - 1] == 10) for i in range(len(b))) and b[-1:] != [10]
 
     def parse_rt(self, case):
         """(sessions, probes) of a well-formed round-trip case whose values are in the documented class, else
@@ -237,6 +255,14 @@ class C24(core.Check):
 
     def shrink_candidates(self, case):
         """smaller cases of the same kind: round-trip cases stay well-formed and inside the class"""
+        if case.get('k') == 'rtp':
+            return
+        if case.get('k') == 'ins':
+            ops = case['ops']
+            for i, o in enumerate(ops):
+                if o[0] in ('IS', 'EOF', 'LOF', 'LOC'):
+                    yield dict(case, ops=ops[:i] + ops[i + 1:])
+            return
         if case.get('k') not in ('rt', 'rtl'):
             for c in core.Check.shrink_candidates(self, case):
                 yield c
@@ -337,8 +363,13 @@ class C24(core.Check):
             if b in (13, 26) or (b == 10 and not soft):
                 b = rng.choice([32, 44, 34, 0, 97, 9, 255])
             out.append(b)
-        if soft and out and out[-1] == 10:
-            out[-1] = 32
+        if soft:
+            # LF CR pairs inside a line survive (exact class)
+            for i in range(1, len(out)):
+                if out[i - 1] == 10 and rng.random() < 0.4:
+                    out[i] = 13
+            if out and out[-1] == 10:
+                out[-1] = 32
         return out
 
     def g_any_string(self, rng):
@@ -378,13 +409,13 @@ class C24(core.Check):
 
     def gen_cases(self, n):
         rng = self.rng
-        hist = {'rt': 0, 'rtl': 0, 'any': 0, 'raw': 0, 'soft': 0, 'len255_items': 0, 'append_sessions': 0,
+        hist = {'rt': 0, 'rtl': 0, 'rtp': 0, 'ins': 0, 'any': 0, 'raw': 0, 'soft': 0, 'len255_items': 0, 'append_sessions': 0,
                 'ops': 0}
         out = []
         for i in range(n):
             soft = rng.random() < 0.5
             r = i % 10
-            if r < 4:
+            if r < 3:
                 nsess = rng.choice([1, 1, 2, 3])
                 sessions = []
                 for _ in range(nsess):
@@ -402,7 +433,7 @@ class C24(core.Check):
                     sessions.append(sess)
                 c = self.mk_rt(soft, sessions, probes=rng.random() < 0.7, rp=self.g_rp(rng, sessions, True))
                 hist['append_sessions'] += nsess - 1
-            elif r < 6:
+            elif r < 5:
                 nsess = rng.choice([1, 1, 2, 3])
                 sessions = []
                 for _ in range(nsess):
@@ -411,10 +442,14 @@ class C24(core.Check):
                     hist['len255_items'] += sum(len(l) == 255 for l in sessions[-1])
                 c = self.mk_rtl(soft, sessions, probes=rng.random() < 0.7, rp=self.g_rp(rng, sessions, False))
                 hist['append_sessions'] += nsess - 1
+            elif r < 6:
+                c = self.g_rtp(rng, soft)
             elif r < 8:
                 c = self.g_any(rng, soft)
-            else:
+            elif r < 9:
                 c = self.g_raw(rng, soft)
+            else:
+                c = self.g_ins(rng, soft)
             hist[c['k']] += 1
             if c['k'] in ('rt', 'rtl'):
                 i0 = [i for i, o in enumerate(c['ops']) if o[0] == 'I'][-1]
@@ -425,6 +460,86 @@ class C24(core.Check):
             out.append(c)
         self.histogram = hist
         return out
+
+    def num_ptext(self, sig, lit):
+        """text PRINT# writes for a number: to_repr with leading space, plus a trailing blank"""
+        t = self.num_text(sig, lit)
+        return (t if t.startswith('-') else ' ' + t) + ' '
+
+    def g_pelems(self, rng, soft, end_value):
+        es = []
+        for _ in range(rng.randrange(0 if not end_value else 1, 6)):
+            r = rng.random()
+            if r < 0.6:
+                n = rng.choice([0, 1, 3, 8, 13, 14, 15, 20, 27, 28, 40]) if rng.random() < 0.7 else rng.randrange(60)
+                es.append(['v', [rng.choice([97, 98, 32, 44, 34, 9, 1, 200, 65]) for _ in range(n)]])
+            elif r < 0.75:
+                it = self.g_number(rng)
+                es.append(['n', it[1], it[2], self.num_ptext(it[1], it[2])])
+            if rng.random() < 0.85:
+                es.append([rng.choice([';', ',', ',', ';'])])
+                if rng.random() < 0.1:
+                    es.append([rng.choice([';', ','])])
+        if end_value:
+            while es and es[-1][0] in (';', ','):
+                es.pop()
+            if not es:
+                es = [['v', [97]]]
+        return es
+
+    def g_rtp(self, rng, soft):
+        """PRINT# statements with several expressions; two thirds at WIDTH 255 (exact read-back oracle), the rest
+        under a random WIDTH# (line-length oracle)"""
+        ops = [['O']]
+        if rng.random() < 0.35:
+            ops.append(['WD', rng.choice([0, 1, 13, 14, 15, 20, 28, 40, 80, 254, 255])])
+        n = 0
+        for _ in range(rng.randrange(1, 5)):
+            ops.append(['PE', self.g_pelems(rng, soft, True)])
+            n += 1
+            if rng.random() < 0.3:
+                ops.append(rng.choice([['LOF'], ['LOC']]))
+            if rng.random() < 0.1:
+                ops.append(['WD', rng.choice([255, 255, 30, 14])])
+        ops += [['C'], ['DISK'], ['I'], ['EOF']]
+        for _ in range(n + rng.choice([0, 0, 1, 3])):
+            ops += [['LI'], ['EOF']]
+            if rng.random() < 0.3:
+                ops.append(rng.choice([['LOC'], ['LOF']]))
+        ops += [['C'], ['DISK']]
+        return {'k': 'rtp', 'soft': soft, 'ops': ops}
+
+    def g_ins(self, rng, soft):
+        """a raw file read by INPUT$ only.  Default mode: single bytes, then at most one longer read as the last
+        one (a longer read through the NewlineWrapper is chunk-dependent: K24b, judged by the oracle only)"""
+        n = rng.choice([0, 1, 2, 5, 9, 20, 40, 130, 260, 300])
+        pool = [13, 10, 13, 10, 26, 32, 34, 44, 0, 97, 98, 99, 255]
+        raw = []
+        while len(raw) < n:
+            r = rng.random()
+            raw += [13, 10] if r < 0.15 else [rng.choice(pool)] if r < (0.8 if n < 50 else 0.3) else [rng.choice([97, 98, 13])]
+        if n >= 50:
+            raw = [x for x in raw if x != 26]
+        if rng.random() < 0.6:
+            raw.append(26)
+        ops = [['RAW', raw], ['I']]
+        left = len(raw)
+        for _ in range(rng.randrange(1, 12)):
+            r = rng.random()
+            if r < 0.25:
+                ops.append(rng.choice([['EOF'], ['LOC'], ['LOF'], ['LOC']]))
+                continue
+            if soft:
+                k = rng.choice([1, 1, 2, 3, 5, 8, 127, 128, 129, 255]) if rng.random() < 0.8 else rng.choice([0, 256, 300])
+            else:
+                k = 1 if rng.random() < 0.97 else rng.choice([0, 256])
+            ops.append(['IS', k])
+        if not soft and rng.random() < 0.6:
+            ops.append(['IS', rng.choice([2, 3, 4, 5, 8, 16])])
+        else:
+            ops.append(rng.choice([['LOC'], ['EOF']]))
+        ops += [['C'], ['DISK']]
+        return {'k': 'ins', 'soft': soft, 'ops': ops}
 
     RP_POOL = [['EOF'], ['EOF'], ['EOF', 'LOF'], ['EOF', 'LOF', 'EOF'], ['EOF', 'LOC'], ['LOF'], ['LOC'], [],
                ['EOF', 'LOC', 'LOF', 'EOF'], ['LOF', 'EOF'], ['EOF', 'EOF', 'LOF', 'LOF']]
@@ -454,12 +569,16 @@ class C24(core.Check):
                     for _ in range(rng.randrange(1, 4)):
                         items.append(['s', self.g_any_string(rng)] if rng.random() < 0.75 else self.g_number(rng))
                     o = ['W', items]
-                elif r < 0.7:
+                elif r < 0.6:
                     o = ['P', self.g_any_string(rng)]
-                elif r < 0.8:
+                elif r < 0.72:
+                    o = ['PE', self.g_pelems(rng, soft, rng.random() < 0.5)]
+                elif r < 0.76:
+                    o = ['WD', rng.choice([0, 1, 10, 14, 20, 28, 29, 40, 80, 255, 255, 256, -1])]
+                elif r < 0.82:
                     o = rng.choice([['LOF'], ['LOC']])
-                elif r < 0.86:
-                    o = rng.choice([['IN', '$'], ['LI'], ['EOF'], ['O'], ['I'], ['A']])
+                elif r < 0.87:
+                    o = rng.choice([['IN', '$'], ['LI'], ['EOF'], ['O'], ['I'], ['A'], ['IS', 1], ['IS', 0]])
                 else:
                     o = ['C']
             else:
@@ -472,7 +591,8 @@ class C24(core.Check):
                 elif r < 0.84:
                     o = rng.choice([['EOF'], ['EOF'], ['LOF'], ['LOC']])
                 elif r < 0.9:
-                    o = rng.choice([['W', [['s', [97]]]], ['P', [98]], ['I'], ['O']])
+                    o = rng.choice([['W', [['s', [97]]]], ['P', [98]], ['I'], ['O'], ['WD', 40], ['WD', 300],
+                                    ['PE', [['v', [97]], [',']]], ['IS', 1 if not soft else rng.choice([1, 2, 7])]])
                 else:
                     o = ['C']
             ops.append(o)
@@ -514,10 +634,12 @@ class C24(core.Check):
             r = rng.random()
             if r < 0.5:
                 ops.append(['IN', rng.choice(['$', '$', '$', '%', '!', '#', '$$', '$$$'])])
-            elif r < 0.7:
+            elif r < 0.65:
                 ops.append(['LI'])
+            elif r < 0.75:
+                ops.append(['IS', rng.choice([1, 2, 3, 10, 255]) if soft else 1])
             else:
-                ops.append(rng.choice([['EOF'], ['EOF'], ['LOF'], ['LOC']]))
+                ops.append(rng.choice([['EOF'], ['LOF'], ['LOC'], ['LOC']]))
         ops += [['C'], ['DISK']]
         return {'k': 'raw', 'soft': soft, 'ops': ops}
 
@@ -557,6 +679,7 @@ class C24(core.Check):
                 def status():
                     return [1, errs[-1]] if errs else [0]
                 mode = None
+                width = 255
                 with core.time_limit(120):
                     for o in ops:
                         del errs[:]
@@ -589,6 +712,37 @@ class C24(core.Check):
                             s.set_variable('L$', bytes(bytearray(o[1])))
                             s.execute('PRINT#1,L$')
                             res = status()
+                        elif k == 'PE':
+                            parts = []
+                            for i, e in enumerate(o[1]):
+                                if e[0] == 'v':
+                                    s.set_variable('P%d$' % i, bytes(bytearray(e[1])))
+                                    parts.append('P%d$' % i)
+                                elif e[0] == 'n':
+                                    s.execute('N%d%s=%s' % (i, e[1], e[2]))
+                                    parts.append('N%d%s' % (i, e[1]))
+                                else:
+                                    parts.append(e[0])
+                            del errs[:]
+                            s.execute('PRINT#1,' + ''.join(parts))
+                            res = status()
+                        elif k == 'WD':
+                            s.execute('WIDTH #1,%d' % o[1])
+                            res = status()
+                            if res == [0] and mode in ('O', 'A'):
+                                width = o[1]
+                        elif k == 'IS':
+                            s.set_variable('L$', b'')
+                            s.execute('L$=INPUT$(%d,#1)' % o[1])
+                            if errs:
+                                res = status()
+                                if mode == 'I' and not soft and o[1] > 1 and 1 <= o[1] <= 255:
+                                    res = [6]
+                                rec['err'] = errs[-1]
+                            else:
+                                v = list(bytearray(s.get_variable('L$')))
+                                res = [6] if (not soft and o[1] > 1) else [0, len(v)] + v
+                                rec['str'] = v
                         elif k == 'IN':
                             names = ['R%d%s' % (i, sg) for i, sg in enumerate(o[1])]
                             s.execute('INPUT#1,' + ','.join(names))
@@ -633,8 +787,6 @@ class C24(core.Check):
                             v = s.evaluate('LOC(1)')
                             if errs:
                                 res = status()
-                            elif mode == 'I' and not soft:
-                                res = [5]
                             else:
                                 res = [0, int(v)]
                             rec['v'] = None if errs else int(v)
@@ -698,6 +850,14 @@ class C24(core.Check):
             return 'IStr ' + _bl(it[1])
         return 'INum ' + _bl(list(bytearray(it[3].encode('latin-1'))))
 
+    @staticmethod
+    def pelem_term(e):
+        if e[0] == 'v':
+            return 'PV ' + _bl(e[1])
+        if e[0] == 'n':
+            return 'PV ' + _bl(list(bytearray(e[3].encode('latin-1'))))
+        return 'PSemi' if e[0] == ';' else 'PComma'
+
     def op_term(self, o):
         k = o[0]
         if k in ('O', 'A', 'I'):
@@ -708,6 +868,12 @@ class C24(core.Check):
             return '(OpWrite [' + ';'.join(self.item_term(it) for it in o[1]) + '])'
         if k == 'P':
             return '(OpPrint ' + _bl(o[1]) + ')'
+        if k == 'PE':
+            return '(OpPrintE [' + ';'.join(self.pelem_term(e) for e in o[1]) + '])'
+        if k == 'WD':
+            return '(OpWidth %s)' % ('(%d)' % o[1] if o[1] < 0 else '%d' % o[1])
+        if k == 'IS':
+            return '(OpInputStr %d%%nat)' % o[1]
         if k == 'IN':
             return '(OpInput [' + ';'.join('true' if sg == '$' else 'false' for sg in o[1]) + '])'
         return {'LI': 'OpLineInput', 'EOF': 'OpEof', 'LOF': 'OpLof', 'LOC': 'OpLoc', 'DISK': 'OpDisk'}.get(k) \
@@ -720,7 +886,7 @@ class C24(core.Check):
     def nontrivial(self, case, out):
         log = self._run_cached(case)[1]
         return bool(log) and any((r['op'] == 'IN' and r.get('words') and r['words'][0] is not None) or
-                                 (r['op'] == 'LI' and 'line' in r) for r in log)
+                                 (r['op'] == 'LI' and 'line' in r) or (r['op'] == 'IS' and 'str' in r) for r in log)
 
     # ------------------------------------------------------------------ oracle
     @staticmethod
@@ -740,14 +906,38 @@ class C24(core.Check):
         return v, 3e-7
 
     @staticmethod
-    def ref_bytes(o):
-        """bytes a WRITE# / PRINT# statement adds (direct reading of the file format, not the Coq model)"""
+    def ref_bytes(o, col=1):
+        """(bytes, column after) a WRITE# / PRINT# statement adds to a file of WIDTH 255: direct reading of the
+        file format (values as they are, a comma pads with blanks to the next 14-column zone, a final value is
+        followed by CR LF); not the Coq model"""
+        def adv(col, bs):
+            for b in bytearray(bs):
+                if b == 13:
+                    col = 1
+                elif b >= 32:
+                    col = 1 if col + 1 == 257 else col + 1
+            return col
         if o[0] == 'P':
-            return bytes(bytearray(o[1])) + b'\r\n'
-        parts = []
-        for it in o[1]:
-            parts.append(b'"' + bytes(bytearray(it[1])) + b'"' if it[0] == 's' else it[3].encode('latin-1'))
-        return b','.join(parts) + b'\r\n'
+            out = bytes(bytearray(o[1])) + b'\r\n'
+        elif o[0] == 'W':
+            parts = []
+            for it in o[1]:
+                parts.append(b'"' + bytes(bytearray(it[1])) + b'"' if it[0] == 's' else it[3].encode('latin-1'))
+            out = b','.join(parts) + b'\r\n'
+        else:
+            out, nl = b'', True
+            for e in o[1]:
+                if e[0] in ('v', 'n'):
+                    out += bytes(bytearray(e[1])) if e[0] == 'v' else e[3].encode('latin-1')
+                    nl = True
+                else:
+                    nl = False
+                    if e[0] == ',':
+                        c = adv(col, out)
+                        out += b' ' * (14 * ((c - 1) // 14 + 1) + 1 - c)
+            if nl:
+                out += b'\r\n'
+        return out, adv(col, out)
 
     def deviations(self, case):
         """Direct reading of C24 on the observed behaviour. Returns a list of (tag, message)."""
@@ -758,39 +948,52 @@ class C24(core.Check):
         dev = []
         # universal: LOF = number of bytes in the file; APPEND adds after the existing content
         disk = None          # last known disk content (bytes) while closed
+        col, width = 1, 255
         content = None       # expected bytes of the file open for output
         mode = None
         for o, r in zip(ops, log):
             k, res = o[0], r['res']
             if k in ('O', 'A', 'I') and res == [0]:
                 mode = k
+                col, width = 1, 255
                 if k == 'O':
                     content = b''
                 elif k == 'A':
-                    content = _strip_eof(disk or b'')
+                    content = None if disk is False else _strip_eof(disk or b'')
             elif k == 'C':
                 if mode in ('O', 'A'):
-                    disk = None if content is None else content + b'\x1a'
+                    disk = False if content is None else content + b'\x1a'      # False: unknown
                 mode = None
-            elif k in ('W', 'P') and res == [0] and mode in ('O', 'A'):
-                content = content + self.ref_bytes(o)
+            elif k in ('W', 'P', 'PE') and res == [0] and mode in ('O', 'A'):
+                if content is not None and width == 255:
+                    add, col = self.ref_bytes(o, col)
+                    content = content + add
+                else:
+                    content = None       # line wrapping under WIDTH#: judged by the line-length check below
+            elif k == 'WD' and res == [0] and mode in ('O', 'A'):
+                width = o[1]
             elif k == 'RAW' and res == [0]:
                 disk = bytes(bytearray(o[1]))
             elif k == 'DISK' and res[:1] == [0]:
                 got = bytes(bytearray(r['disk']))
-                if disk is not None and got != disk:
+                if isinstance(disk, bytes) and got != disk:
                     dev.append(('bytes', 'file bytes are not old content (minus EOF byte) + written bytes + '
                                          'EOF byte'))
                 disk = got
             elif k == 'LOF' and r.get('v') is not None:
-                exp = len(content) if mode in ('O', 'A') else (len(disk) if disk is not None else None)
+                exp = (len(content) if content is not None else None) if mode in ('O', 'A') else (
+                    len(disk) if isinstance(disk, bytes) else None)
                 if exp is not None and r['v'] != exp:
                     dev.append(('lof', 'LOF=%d but the file has %d bytes' % (r['v'], exp)))
             elif k == 'LOC' and r.get('v') is not None:
-                if mode in ('O', 'A') and r['v'] != len(content) // 128:
+                if mode in ('O', 'A') and content is not None and r['v'] != len(content) // 128:
                     dev.append(('loc', 'LOC=%d in output mode with %d bytes written' % (r['v'], len(content))))
-                if mode == 'I' and disk is not None and not 1 <= r['v'] <= max(1, (127 + len(disk)) // 128):
+                if mode == 'I' and isinstance(disk, bytes) and not 1 <= r['v'] <= max(1, (127 + len(disk)) // 128):
                     dev.append(('loc', 'LOC=%d outside 1..ceil(LOF/128)' % r['v']))
+        if case['k'] == 'rtp':
+            return dev + self.dev_rtp(case, log)
+        if case['k'] == 'ins':
+            return dev + self.dev_ins(case, log)
         if case['k'] not in ('rt', 'rtl') or self.parse_rt(case) is None:
             return dev
         # round trip: what was written comes back, EOF false before the last item and true after
@@ -836,6 +1039,106 @@ class C24(core.Check):
             idx += 1
         return dev
 
+    def dev_rtp(self, case, log):
+        """PRINT# statements with several expressions and ; , separators at WIDTH 255, each ending in a value:
+        the lines LINE INPUT# returns are the lines the statements make up (values joined, commas padded to the
+        next 14-column zone), whenever those lines are in the documented class; under WIDTH n no line written is
+        longer than n printable characters unless a single value is."""
+        ops, soft = case['ops'], case['soft']
+        dev = []
+        text, col, width, longest = b'', 1, 255, 0
+        exact = True
+        for o, r in zip(ops, log):
+            if o[0] == 'WD' and r['res'] == [0]:
+                width = o[1]
+                exact = exact and width == 255
+            elif o[0] == 'PE' and r['res'] == [0]:
+                add, col = self.ref_bytes(o, col)
+                text += add
+                for e in o[1]:
+                    if e[0] in ('v', 'n'):
+                        longest = max(longest, len(e[1]) if e[0] == 'v' else len(e[3]))
+        disk = [r for o, r in zip(ops, log) if o[0] == 'DISK' and 'disk' in r]
+        if not disk:
+            return dev
+        got = bytes(bytearray(disk[0]['disk']))
+        if not exact:
+            wds = [i for i, o in enumerate(ops) if o[0] == 'WD']
+            if wds != [1] or width < 14:
+                return dev          # WIDTH changed between statements / zones wider than the line: no simple bound
+            for ln in got[:-1].split(b'\r\n'):
+                n = sum(b >= 32 for b in bytearray(ln))
+                if n > max(width, longest) and width != 255:
+                    dev.append(('width', 'a line of %d printable characters under WIDTH %d' % (n, width)))
+            return dev
+        if not text.endswith(b'\r\n'):
+            return dev
+        lines = [list(bytearray(x)) for x in text[:-2].split(b'\r\n')]
+        if not all(self.line_in_class(soft, l) and len(l) <= 254 for l in lines):
+            return dev
+        reads = [(o, r) for o, r in zip(ops, log) if o[0] in ('LI', 'EOF') and r.get('op')]
+        i0 = [i for i, o in enumerate(ops) if o[0] == 'I'][-1]
+        idx = 0
+        for o, r in list(zip(ops, log))[i0 + 1:]:
+            if o[0] == 'EOF' and r.get('v') is not (idx == len(lines)):
+                dev.append(('eof', 'EOF is %r after %d of %d lines' % (r.get('v'), idx, len(lines))))
+            if o[0] == 'LI' and idx < len(lines):
+                if r['res'][:1] != [0] or r.get('line') != lines[idx]:
+                    dev.append(('rt', 'line %d of the PRINT# statements read back differs' % idx))
+                idx += 1
+        return dev
+
+    def dev_ins(self, case, log):
+        """INPUT$(n,#1) returns exactly the next n bytes of the file (CR, LF, blanks, quotes, commas included; in
+        the default mode: of the newline-translated file) and Input past end when fewer than n bytes precede 1A
+        or the end."""
+        ops, soft = case['ops'], case['soft']
+        raw = [o[1] for o in ops if o[0] == 'RAW'][-1]
+        if soft:
+            stream = list(raw)
+        else:
+            stream, last = [], None
+            for b in raw:
+                if not (last == 13 and b == 10):
+                    stream.append(13 if b == 10 else b)
+                last = b
+        pos = 0
+        dev = []
+        for o, r in zip(ops, log):
+            if o[0] == 'EOF' and r.get('v') is not None:
+                if r['v'] != (pos >= len(stream) or stream[pos] == 26):
+                    dev.append(('eof', 'EOF is %r at byte %d' % (r['v'], pos)))
+            if o[0] == 'LOC' and r.get('v') is not None:
+                # LOC = 128-byte blocks needed for the bytes consumed (at least 1); behind the NewlineWrapper the
+                # raw bytes behind them, where an absorbed LF may or may not be counted yet
+                if soft:
+                    rp, allowed = pos, 0
+                else:
+                    rp, k, last = 0, pos, None
+                    while k > 0 and rp < len(raw):
+                        if not (last == 13 and raw[rp] == 10):
+                            k -= 1
+                        last = raw[rp]
+                        rp += 1
+                    allowed = 1 if (last == 13 and rp < len(raw) and raw[rp] == 10) else 0
+                if r['v'] not in (max(1, (127 + rp) // 128), max(1, (127 + rp + allowed) // 128)):
+                    dev.append(('loc', 'LOC=%d after %d bytes of the file have been read' % (r['v'], rp)))
+            if o[0] != 'IS' or not 1 <= o[1] <= 255:
+                continue
+            win = stream[pos:pos + o[1]]
+            tag = 'ins_chunk' if (not soft and o[1] > 1) else 'ins'
+            if 26 in win or len(win) < o[1]:
+                if r.get('err') != 62:
+                    dev.append((tag, 'INPUT$(%d) at byte %d: expected Input past end, got %r' % (
+                        o[1], pos, r.get('str', r.get('err')))))
+                pos += win.index(26) if 26 in win else len(win)
+            else:
+                if r.get('str') != win:
+                    dev.append((tag, 'INPUT$(%d) at byte %d returned %r, the next bytes are %r' % (
+                        o[1], pos, r.get('str', r.get('err')), win)))
+                pos += o[1]
+        return dev
+
     @staticmethod
     def _is255(w):
         it, kind = w
@@ -852,6 +1155,13 @@ class C24(core.Check):
         """K3: first deviation directly after (or the EOF flag at) a 255-byte quoted string written by WRITE#.
         K24a: the same for a 255-byte line written by PRINT#."""
         fid = finding.get('id')
+        if fid == 'K24b':
+            # default mode, INPUT$ of more than one byte, the raw bytes it covers contain CR LF or LF
+            if case.get('k') != 'ins' or case.get('soft'):
+                return False
+            dev = self.deviations(case)
+            raw = [o[1] for o in case['ops'] if o[0] == 'RAW'][-1]
+            return bool(dev) and dev[0][0] == 'ins_chunk' and 10 in raw
         if fid not in MY_KNOWN or case.get('k') not in ('rt', 'rtl'):
             return False
         if (fid == 'K3') != (case['k'] == 'rt'):
@@ -863,6 +1173,8 @@ class C24(core.Check):
     def known_rerun(self, finding):
         w = finding.get('witness') or {}
         case = {'k': w.get('k'), 'soft': w.get('soft', False), 'ops': w.get('ops')}
+        if finding.get('id') not in MY_KNOWN:
+            return True
         if not case['ops']:
             return False
         self.__dict__.setdefault('_runs', {}).pop(core.sha(case), None)
